@@ -24,8 +24,9 @@ from harness.trace import Run
 PROP = "C18"
 THEOREMS = ["Lbfgsb.C18.pairs_are_diffs", "Lbfgsb.C18.pairs_le_maxcor", "Lbfgsb.C18.pairs_curvature",
             "Lbfgsb.C18.curv_pos", "Lbfgsb.C18.inv_bfgs_posdef", "Lbfgsb.C18.inv_bfgs_chain_posdef",
-            "Lbfgsb.C18.diag_by_unit_vectors", "Lbfgsb.C18.two_loop_eq_chain", "Lbfgsb.C18.two_loop_spd"]
-MODULES = ["LbfgsbVerif.Props.C18", "LbfgsbVerif.Props.C18TwoLoop"]
+            "Lbfgsb.C18.diag_by_unit_vectors", "Lbfgsb.C18.two_loop_eq_chain", "Lbfgsb.C18.two_loop_spd",
+            "Lbfgsb.C18.hess_inv_secant", "Lbfgsb.C18.hess_inv_is_inverse_bfgs"]
+MODULES = ["LbfgsbVerif.Props.C18", "LbfgsbVerif.Props.C18TwoLoop", "LbfgsbVerif.Props.C18Secant"]
 
 
 # ------------------------------------------------------------------ pairs of a reported state
@@ -105,6 +106,20 @@ def check_state(name, st, vis, maxcor, check_y, restarted=False):
             return f"{name}: ROUNDING pairs restored from the checkpoint differ in the last bits from the differences of the visited iterates"
         return f"{name}: pairs are not differences of a chronological chain of visited iterates" + \
                (" and of the gradients returned there" if check_y else "")
+    # secant equation of the operator (theorem hess_inv_secant): it maps the newest y to the newest s — up to the rounding of the
+    # two sweeps, of order eps (1 + |y|/|s| (1 + 1/cos(s, y))) relative to |s|
+    s_, y_ = sk[-1], yk[-1]
+    ns, ny = float(np.linalg.norm(s_)), float(np.linalg.norm(y_))
+    if ns > 0 and ny > 0 and np.isfinite(sk).all() and np.isfinite(yk).all():
+        cosines = [float(a @ b) / (float(np.linalg.norm(a)) * float(np.linalg.norm(b)) + 1e-300) for a, b in zip(sk, yk)]
+        cs = min(cosines)
+        Hy = np.asarray(st.hess_inv.matvec(y_), dtype=float)
+        err = float(np.abs(Hy - s_).max()) / max(float(np.abs(s_).max()), 1e-300)
+        # every pair the sweeps go through amplifies the rounding by about 1 + 1/cos(s_j, y_j) (first met on a history rewritten by an
+        # indefinite objective: cosines 0.005 and 0.013, error 3e-10); beyond 1e-6 the comparison says nothing and is not made
+        tol = 100 * 2.3e-16 * (1.0 + ny / ns) * float(np.prod([1.0 + 1.0 / max(c_, 1e-300) for c_ in cosines])) if cs > 0 else np.inf
+        if np.isfinite(Hy).all() and cs > 0 and tol <= 1e-6 and err > tol:
+            return f"{name}: the operator does not map the newest y to the newest s (secant equation, relative error {err:.2e})"
     H = st.hess_inv.todense()
     if not np.isfinite(H).all():
         return None
@@ -270,6 +285,9 @@ def evaluate(case: Dict[str, Any]) -> Dict[str, Any]:
     return eval_run(case)
 
 
+RESET_CORPUS = [2395, 8095, 8982, 13248, 14512, 15086, 18239, 24406, 25901, 29073]
+
+
 def features(r):
     return {"jac": r.choice(["callable"] * 5 + ["2-point", "none"]),
             "callback": r.choice(["false", "false", "none", "stop"]),
@@ -313,6 +331,24 @@ def run(tier: str, seed: int) -> int:
                       "features": {"jac": r.choice(["callable", "callable", "2-point"]), "callback": r.choice(["false", "none"]),
                                    "ftarget": "none", "gtol_callable": False, "scaler": "none", "update": "none"},
                       "override": {"ftol": 0.0, "gtol": 1e-12, "maxfun": 15000, "maxls": 20, "maxcor": r.choice([3, 5, 10])}})
+    # runs in which line searches fail and the memory is reset, next to rejected pairs (non-convex objectives, one to three trials
+    # per search): what is kept at a reset must still be (point, its own gradient)
+    for i in range(nrun // 2):
+        s = seed * 1_000_003 + 400_000 + i
+        r = random.Random(s)
+        cases.append({"seed": s, "kind": "run", "families": ["osc", "styb", "bench", "osc"], "box": "both", "small_budgets": False,
+                      "features": {"jac": "callable", "callback": r.choice(["false", "none"]), "ftarget": "none", "gtol_callable": False,
+                                   "scaler": "none", "update": "none"},
+                      "override": {"ftol": 0.0, "gtol": 1e-10, "maxfun": 15000, "maxiter": r.choice([25, 40, 60]), "maxls": r.choice([1, 2, 2, 3]),
+                                   "maxcor": r.choice([3, 5, 10])}})
+    # corpus: problems on which an iteration whose pair fails the curvature test is immediately followed by a line search that finds no
+    # decrease while the memory holds pairs (about one run in 3000 of this family): the point and the gradient kept at the reset must
+    # belong together, the next pair is formed from them
+    from harness.gen import cosmix_problem
+    for cs in RESET_CORPUS + [seed * 1_000_003 + 450_000 + i for i in range(nrun // 3)]:
+        cases.append({"seed": cs, "kind": "run", "families": ["cosmix"], "small_budgets": False,
+                      "features": {"jac": "callable", "callback": "none", "ftarget": "none", "gtol_callable": False, "scaler": "none", "update": "none"},
+                      "override": {"maxcor": 5, "maxls": cosmix_problem(cs)[1], "maxiter": 60, "maxfun": 15000, "ftol": 1e-5, "gtol": 1e-5}})
     for i in range(ndiag):
         s = seed * 1_000_003 + 500_000 + i
         r = random.Random(s)
@@ -322,7 +358,7 @@ def run(tier: str, seed: int) -> int:
     return run_property(
         PROP, "harness.props.c18", THEOREMS, MODULES, cases, tier, seed,
         rule="runs (callable gradient, finite differences, callbacks, restart chains, objective redefinitions): sk, yk of the result and of "
-             "every callback state are part of the bit-exact replay through the Lean driver model, and are searched for as exact differences "
+             "every callback state (also of runs with failing line searches, memory resets and rejected pairs: non-convex objectives, 1..3 trials per search) are part of the bit-exact replay through the Lean driver model, and are searched for as exact differences "
              "of a chronological chain in the harness's own visit log; count <= maxcor, s.y > 0, symmetry. Diagonal utility: random "
              "positive-curvature pair sets (m 1..12, n 1..30) against todense() and, for small sizes, an exact rational inverse-BFGS recursion",
         assumptions=["pairs rebuilt from a checkpoint are compared bit for bit with the visit logs of all legs (known finding K2 when they differ by rounding)",
